@@ -6,8 +6,9 @@ CONSTANTS
   Defaults <- OnlyParse
   RegTypes <- GivenStep
   SingleTypes <- OnlyGiven
-  BfsRegs = 2
-  SimRegs = 3
+  FullRegs = 2
+  MaxRegs = 3
+  SampleMod <- ModQuick
   BigLen = 2
 INVARIANT NoAmbiguousPair
 INVARIANT LookupFirstHit
